@@ -112,9 +112,11 @@ C05Step ==
        \cup (IF E.ev = "Create" /\ ~Ok /\ E.hasadj THEN {V("Act_AdjustmentDescribesCreated", "adjustment-with-error", E.c)} ELSE {})
 
 \* live containers without a grant; CPU demand of the live containers vs. the sharable capacity of the machine
-Grantless == IF ~IsTA THEN {} ELSE
-    {c \in rtlive' \cap DOMAIN ctrs' : ctrs'[c].st \in {"created", "running"} /\ ~\E g \in SetOf(pol'.grants) : g.c = c}
-HalfLoaded == IF ~IsTA THEN FALSE ELSE
+Grantless == IF ~IsTA
+    THEN {c \in rtlive' \cap DOMAIN ctrs' : ctrs'[c].st \in {"created", "running"} /\ ~ctrs'[c].pcpu /\ c \notin BalloonMembers(pol')}
+    ELSE {c \in rtlive' \cap DOMAIN ctrs' : ctrs'[c].st \in {"created", "running"} /\ ~\E g \in SetOf(pol'.grants) : g.c = c}
+\* balloons hands out whole CPUs per balloon: with (almost) no idle CPU left a bulk re-allocation cannot place everybody
+HalfLoaded == IF ~IsTA THEN (pol' # <<>> /\ Cardinality(SetOf(pol'.free)) <= 1) ELSE
     LET L == {c \in DOMAIN ctrs' : ctrs'[c].st \in {"created", "running"}}
         demand == MapThenSumSet(LAMBDA c : ctrs'[c].cpureq, L)
         cap    == 1000 * Cardinality(SetOf(pol'.allowed) \ (SetOf(pol'.reserved) \cup SetOf(pol'.isolated)))
@@ -263,7 +265,7 @@ SigOf(pw) ==
             (IF E.err THEN "left-by-failed-" \o E.ev ELSE "after-" \o StepSig)
        ELSE "after-" \o StepSig
 
-StateViols == C05State \cup (IF IsTA THEN TAState ELSE BalloonState(pol', ctrs', rt', rtlive', world', topo, SetOf(Get(E.st, "cpuclass", <<>>)))) \cup C04State \cup C09State
+StateViols == C05State \cup (IF IsTA THEN TAState ELSE BalloonState(pol', ctrs', rt', rtlive', world', topo, SetOf(Get(E.st, "cpuclass", <<>>)), excused')) \cup C04State \cup C09State
 NewViols == {V(pw[1], SigOf(pw), pw[2]) : pw \in StateViols \ broken}
 
 -----------------------------------------------------------------------------
